@@ -15,7 +15,7 @@ import (
 func CheckC04(run *evid.Run) {
 	nh := pick(run.Tier, 2000, 30000)
 	run.Rule = "every Append of seeded histories (lopsided clocks, forks, shared writers, pointer counts 1..64; a fifth of them 'manyheads': one long chain merged with 7-16 short logs so that there are more heads than the pointer count; every other one with refused operations and forks; a third with CONCURRENT BURSTS - appends || merges || reads on one replica - before the appends that are checked) incl. appends after SetIdentity to another writer and after the log was rebuilt from storage by each loader; snapshot-before / returned entry / snapshot-after compared with the model (next = heads before, clock id = current writer's key, time > every entry held, single head after, refs inside past(next), disjoint from next, duplicate-free, |refs| <= floor(log2 pc)+2, and the appended entry dominates the log: every entry held is in its causal past); non-trivial append = on a log with >=2 heads or holding entries of another writer; distinct = (heads before, entries before, pc, writer-changed, reloaded) class digest"
-	opts := hx.GenOpts{MaxSteps: pick(run.Tier, 45, 80), Orders: []string{"default", "hash"}, Extra: true,
+	opts := hx.GenOpts{MaxSteps: pick(run.Tier, 45, 80), Orders: []string{"default", "hash", "fww", "revhash"}, Extra: true,
 		Shapes: []string{"lopsided", "mixed", "widefork", "diamond", "lopsided", "overlap", "twins", "ring"}}
 	parallel(nh, func(i int) {
 		o2 := opts
@@ -194,6 +194,7 @@ func CheckC05(run *evid.Run) {
 		o2 := opts
 		o2.Failures = i%2 == 1
 		o2.Bursts = i%3 == 0
+		o2.Extra = i%4 == 1 // identity changes and rebuilds from storage
 		h := hx.Gen(run.Seed, i, o2)
 		x := hx.NewExec(h)
 		shadow := map[string]string{}
@@ -214,6 +215,9 @@ func CheckC05(run *evid.Run) {
 				// the forked replica starts a new life; what it held before is not its past
 				prev[s.R] = nil
 				run.Count("forks", 1)
+			}
+			if s.Op == "setident" || s.Op == "reload" {
+				run.Count("identity_changes_and_rebuilds", 1)
 			}
 			if s.Op == "burst" {
 				run.Count("concurrent_bursts", 1)
